@@ -399,6 +399,19 @@ impl PeerDHTRecord {
 
     /// Verify the record signature
     pub fn verify_signature(&self) -> Result<()> {
+        // The record speaks for the identity derived from the embedded key and for
+        // no other: without this anyone could sign a record carrying someone
+        // else's user id with a key of their own.
+        if self.user_id != UserId::from_public_key(&self.public_key) {
+            return Err(P2PError::Security(
+                SecurityError::SignatureVerificationFailed(
+                    "User id does not belong to the embedded public key"
+                        .to_string()
+                        .into(),
+                ),
+            ));
+        }
+
         let message = self.create_signable_message()?;
         let ok = crate::quantum_crypto::ml_dsa_verify(&self.public_key, &message, &self.signature)
             .map_err(|e| {
@@ -468,7 +481,15 @@ impl SignatureCache {
 
     /// Verify signature with caching
     pub fn verify_cached(&mut self, record: &PeerDHTRecord) -> Result<()> {
-        let hash = record.content_hash();
+        // The cached verdict belongs to exactly these signed bytes under exactly
+        // this signature. (`content_hash` covers only id, sequence and timestamp,
+        // so keyed on it a verdict would leak to altered or forged records.)
+        let hash = {
+            let mut hasher = blake3::Hasher::new();
+            hasher.update(&record.create_signable_message()?);
+            hasher.update(record.signature.as_bytes());
+            hasher.finalize()
+        };
 
         // Check cache first
         if let Some(&result) = self.cache.get(&hash) {
